@@ -1,9 +1,127 @@
 import PyamgV.Driver.Util
-/-! Driver ops for property C16 (line protocol). Op names are prefixed `c16_`. -/
+import PyamgV.Model.C16Coarse
+/-! Driver ops for property C16 (line protocol). Op names are prefixed `c16_`.
+Field token `f`: `r` = rationals, `c` = Gaussian rationals (`re|im`).
+
+* `c16_dispatch arg`                      -> kind (`pinv lu cholesky splu krylov:<s> relax:<s> none callable`) or `ValueError`
+* `c16_solve f n A b`                     -> exact solution of `A x = b` by Gauss-Jordan elimination, re-checked by
+                                             multiplying back; `singular` when a column has no pivot (dense rows `;`-separated)
+* `c16_pinv f n A`                        -> `A⁺ # Penrose-ok # A⁺A=I` (exact Moore-Penrose inverse, certificate flags)
+* `c16_hpd f n A`                         -> `true|false` (Hermitian positive definite, exactly)
+* `c16_run f arg opts cb calls (n ap aj ax)+`
+      the model of `coarse_grid_solver(arg or (arg, opts))` followed by the calls `k:shape:b` (`k` = index of the
+      matrix passed, shape `v|c`), separated by `;`  ->  `ValueError` or per call `ok:shape:x` / `err:<why>` (`;`-separated)
+      `#` number of factorisation calls.  `arg`: `s:<name>`, `none`, `callable`, `other`.
+      `opts`: `-` or `it=<n>,sw=<sweep>,om=<q>,rho=<0|1>`.  `cb` (the callable): `scale:<q>` (q·b), `flat:<q>` (q·b.ravel()),
+      `short` (b[:-1]).
+* `c16_quad f n ap aj ax b x`             -> `xᴴAx # xᴴb # xᴴx # ‖b − Ax‖²` (exact; the imaginary parts are dropped) -/
 namespace PyamgV.Drv.C16
-open PyamgV PyamgV.Drv
+open PyamgV PyamgV.Drv PyamgV.K PyamgV.C02 PyamgV.C16
+
+def mkR (n ap aj ax : String) : Csr Rat := ⟨nat n, parseNats ap, parseNats aj, parseRats ax⟩
+def mkC (n ap aj ax : String) : Csr CRat := ⟨nat n, parseNats ap, parseNats aj, parseCRats ax⟩
+def parseCMat (s : String) : Array (Array CRat) := if s = "-" then #[] else (s.splitOn ";").toArray.map parseCRats
+def showCMat (m : Array (Array CRat)) : String :=
+  if m.isEmpty then "-" else String.intercalate ";" (m.toList.map showCRats)
+def showB (b : Bool) : String := if b then "true" else "false"
+
+def posR (q : Rat) : Bool := decide (0 < q)
+def posC (z : CRat) : Bool := decide (z.im = 0) && decide (0 < z.re)
+
+def parseArg (s : String) : Arg :=
+  if s = "none" then .none else if s = "callable" then .callable
+  else if s.startsWith "s:" then .str (s.drop 2).toString else .other
+
+def showKind : Kind → String
+  | .pinv => "pinv" | .lu => "lu" | .cholesky => "cholesky" | .splu => "splu"
+  | .krylov s => "krylov:" ++ s | .relax s => "relax:" ++ s | .noSolve => "none" | .callable => "callable"
+
+def parseSweep (s : String) : Sweep :=
+  if s = "backward" then .backward else if s = "symmetric" then .symmetric else .forward
+
+def parseOpts {α : Type} (pq : String → α) (s : String) : Opts α :=
+  (listOf s).foldl (fun o t =>
+    match t.splitOn "=" with
+    | ["it", v] => { o with iterations := some (nat v) }
+    | ["sw", v] => { o with sweep := some (parseSweep v) }
+    | ["om", v] => { o with omega := some (pq v) }
+    | ["rho", v] => { o with withrho := some (v = "1") }
+    | _ => o) {}
+
+def parseShape (s : String) : Shape := if s = "c" then .col else .vec
+def showShape : Shape → String | .vec => "v" | .col => "c"
+
+/-- the callables the check passes: `scale:q`, `flat:q`, `short` -/
+def mkCb {α : Type} [Mul α] (pq : String → α) (s : String) : Csr α → Arr α → Except String (Arr α) :=
+  fun _ b =>
+    match s.splitOn ":" with
+    | ["scale", q] => .ok ⟨b.data.map (fun v => pq q * v), b.shape⟩
+    | ["flat", q] => .ok ⟨b.data.map (fun v => pq q * v), .vec⟩
+    | ["short"] => .ok ⟨b.data.pop, b.shape⟩
+    | _ => .error "bad-callable"
+
+def parseMats {α : Type} (mk : String → String → String → String → Csr α) : List String → Option (List (Csr α))
+  | [] => some []
+  | n :: ap :: aj :: ax :: rest => (parseMats mk rest).map (fun l => mk n ap aj ax :: l)
+  | _ => none
+
+def runOp {α : Type} [Add α] [Sub α] [Mul α] [Div α] [OfNat α 0] [OfNat α 1] [DecidableEq α]
+    (conj : α → α) (isPos : α → Bool) (pq : String → α) (pl : String → Array α) (sl : Array α → String)
+    (arg opts cb calls : String) (mats : List (Csr α)) : String :=
+  let hist : List (Csr α × Arr α) := (calls.splitOn ";").filterMap (fun c =>
+    match c.splitOn ":" with
+    | [k, sh, b] => (mats[nat k]?).map (fun A => (A, (⟨pl b, parseShape sh⟩ : Arr α)))
+    | _ => none)
+  match coarseGridSolver conj isPos (mkCb pq cb) (parseArg arg) (parseOpts pq opts) hist with
+  | none => "ValueError"
+  | some (rs, c) =>
+    String.intercalate ";" (rs.map (fun r => match r with
+      | .ok x => "ok:" ++ showShape x.shape ++ ":" ++ sl x.data
+      | .error e => "err:" ++ e)) ++ "#" ++ toString c
+
+/-- Gauss-Jordan solve, result multiplied back -/
+def solveChecked {α : Type} [Add α] [Sub α] [Mul α] [Div α] [OfNat α 0] [OfNat α 1] [DecidableEq α]
+    (A : Dense α) (n : Nat) (b : Array α) : Option (Array α) :=
+  match gaussSolve (normalize A n n) b with
+  | some x => if matVec A n n x = (Array.range n).map (fun i => rd b i) then some x else none
+  | none => none
+
+def quadOp {α : Type} [Add α] [Sub α] [Mul α] [Div α] [OfNat α 0] [OfNat α 1] [DecidableEq α]
+    (conj : α → α) (re : α → Rat) (A : Csr α) (b x : Array α) : String :=
+  let Ax := spmv A x
+  let r := vsub b Ax
+  showRat (re (cdot conj x Ax)) ++ "#" ++ showRat (re (cdot conj x b)) ++ "#" ++ showRat (re (cdot conj x x))
+    ++ "#" ++ showRat (re (cdot conj r r))
 
 def handle : List String → Option String
+  | ["c16_dispatch", arg] =>
+    some <| match dispatch (parseArg arg) with | some k => showKind k | none => "ValueError"
+  | ["c16_solve", "r", n, A, b] =>
+    some <| match solveChecked (parseMat A) (nat n) (parseRats b) with | some x => showRats x | none => "singular"
+  | ["c16_solve", "c", n, A, b] =>
+    some <| match solveChecked (parseCMat A) (nat n) (parseCRats b) with | some x => showCRats x | none => "singular"
+  | ["c16_pinv", "r", n, A] =>
+    let M := parseMat A
+    let X := pinvD id M (nat n)
+    some <| showMat X ++ "#" ++ showB (isPinv id M X (nat n)) ++ "#" ++ showB (isInv M X (nat n))
+  | ["c16_pinv", "c", n, A] =>
+    let M := parseCMat A
+    let X := pinvD CRat.conj M (nat n)
+    some <| showCMat X ++ "#" ++ showB (isPinv CRat.conj M X (nat n)) ++ "#" ++ showB (isInv M X (nat n))
+  | ["c16_hpd", "r", n, A] => some <| showB (isHPD id posR (parseMat A) (nat n))
+  | ["c16_hpd", "c", n, A] => some <| showB (isHPD CRat.conj posC (parseCMat A) (nat n))
+  | "c16_run" :: "r" :: arg :: opts :: cb :: calls :: mats =>
+    some <| match parseMats mkR mats with
+      | some ms => runOp id posR parseRat parseRats showRats arg opts cb calls ms
+      | none => "bad-request"
+  | "c16_run" :: "c" :: arg :: opts :: cb :: calls :: mats =>
+    some <| match parseMats mkC mats with
+      | some ms => runOp CRat.conj posC parseCRat parseCRats showCRats arg opts cb calls ms
+      | none => "bad-request"
+  | ["c16_quad", "r", n, ap, aj, ax, b, x] =>
+    some <| quadOp id id (mkR n ap aj ax) (parseRats b) (parseRats x)
+  | ["c16_quad", "c", n, ap, aj, ax, b, x] =>
+    some <| quadOp CRat.conj (fun z => z.re) (mkC n ap aj ax) (parseCRats b) (parseCRats x)
   | _ => none
 
 end PyamgV.Drv.C16
